@@ -8,7 +8,7 @@
    system with the modes the property allows. *)
 From Coq Require Import Permutation.
 From Oras Require Import Base.Prelude Generated.GC12 Model.TarRoundTrip Model.FileAnnotations
-  Proofs.TarRoundTrip Proofs.TarWalkOrder Proofs.TarListingOrder Proofs.TarModeSweep Proofs.TarRootMode Proofs.TarUnprivileged Proofs.TarSourceFacts Proofs.TarSetgid.
+  Proofs.TarRoundTrip Proofs.TarWalkOrder Proofs.TarListingOrder Proofs.TarModeSweep Proofs.TarRootMode Proofs.TarUnprivileged Proofs.TarSourceFacts Proofs.TarSetgid Proofs.TarRestoreOrder.
 
 (* Round trip at full strength: every path of the restored directory -- the directory itself
    included -- is the path of the source tree: same kind, bytes, link target, and mode (minus
@@ -340,6 +340,53 @@ Theorem C12_source_literals :
   N.land c12_dir_owner_bits owner_wx = owner_wx /\ c12_dir_owner_bits <= 511 /\ c12_ensure_dir_perm = 511.
 Proof. exact source_literals. Qed.
 Print Assumptions C12_source_literals.
+
+(* restoreDirModes step by step, in its real order (directory entries sorted by depth, walked
+   backwards, every path once, the last entry's mode) and with the kernel's check on every
+   chmod (search permission on every directory above): [extract_po].  Because directories are
+   handled deepest first, everything above the one being changed still has mode | 0700, so no
+   chmod is refused and the result is the one of [extract] -- for root and for an unprivileged
+   owner, for EVERY archive.  The order is needed: see C12_shallow_first_refuted. *)
+Theorem C12_extract_po_ok :
+  forall priv pre umask preserve es,
+    N.land umask 192 = 0 ->
+    match extract pre umask preserve es with
+    | Ok f => exists f', extract_po priv pre umask preserve es = Ok f' /\
+                         forall q, fs_lookup f' q = fs_lookup f q
+    | Err x => extract_po priv pre umask preserve es = Err x
+    end.
+Proof. exact extract_po_ok. Qed.
+Print Assumptions C12_extract_po_ok.
+
+Theorem C12_roundtrip_unprivileged_ordered :
+  forall pre umask preserve repro T,
+    N.land umask 192 = 0 -> (preserve = false -> umask <= 511) ->
+    is_dir T = true -> wf_treeb T = true -> modes_okb T = true -> benign_tree pre T = true ->
+    exists f', extract_po false pre umask preserve (tar_entries pre repro T) = Ok f' /\
+      forall p, fs_lookup f' p = expected umask preserve T p.
+Proof. exact roundtrip_unprivileged_ordered. Qed.
+Print Assumptions C12_roundtrip_unprivileged_ordered.
+
+Theorem C12_restore_order_ok :
+  forall priv pre preserve es f0,
+    (forall p m, fs_lookup f0 p = Some (NDir m) -> has_x m = true) ->
+    exists f', restore_in_order priv pre preserve es f0 (restore_order pre es) = Ok f' /\
+      forall q, fs_lookup f' q = fs_lookup (finish_dirs pre preserve es f0) q.
+Proof. exact restore_order_ok. Qed.
+Print Assumptions C12_restore_order_ok.
+
+(* a directory with recorded mode 0600 and a directory below it: deepest first works for the
+   owner, the directory first does not (EACCES on the chmod below it) *)
+Theorem C12_shallow_first_refuted :
+  restore_order [b "d"] order_witness = [[b "p"; b "c"]; [b "p"]; []] /\
+  (exists f, extract_po false [b "d"] 18 false order_witness = Ok f /\
+             fs_lookup f [b "p"] = Some (NDir 384) /\ fs_lookup f [b "p"; b "c"] = Some (NDir 493)) /\
+  match extract_list_p false [b "d"] 18 false (fs_init 18) order_witness with
+  | Ok f => restore_in_order false [b "d"] false order_witness f [[]; [b "p"]; [b "p"; b "c"]] = Err XPerm
+  | Err _ => False
+  end.
+Proof. exact shallow_first_refuted. Qed.
+Print Assumptions C12_shallow_first_refuted.
 
 (* Unpacking into a set-group-ID working directory (a shared project directory): mkdir(2) makes
    every new directory set-group-ID.  For EVERY archive the extraction is the ordinary run with
